@@ -1652,12 +1652,31 @@ class SymCtx(_Base):
         return CharStr([self.fresh_int(f"{name}[{i}]", lo, hi) for i in range(n)])
 
     def choice(self, name, n):
-        """symbolic int in [0,n) consumed concretely (harness-side fork)"""
+        """fresh symbolic int in [0,n) consumed concretely at a harness injection point.
+        The variable is fresh and constrained by its range only, so every value is feasible
+        and no solver call is needed to enumerate them (one n-ary decision)."""
         v = self.fresh_int(name, 0, n - 1)
-        return self.conc(v, 0, n - 1)
+        if n <= 1:
+            return 0
+        i = len(self.trace)
+        if i < len(self.prefix):
+            val = int(self.prefix[i])
+        else:
+            if i >= self.run.max_depth:
+                raise BoundExceeded(f"decision depth {i} reached")
+            kind, site = self._site()
+            self.run.fork_sites[kind][site] = self.run.fork_sites[kind].get(site, 0) + 1
+            base = [t for _, t in self.trace]
+            for alt in range(n - 1, 0, -1):
+                self.run.work.append(base + [alt])
+            val = 0
+        c = (v.z == val)
+        self.trace.append((c, val))
+        self.solver.add(c)
+        return val
 
     def flag(self, name):
-        return bool(self.fresh_bool(name))
+        return bool(self.choice(name, 2))
 
     def conc(self, v, lo, hi):
         """fork a small symbolic int into its concrete values (binary splitting)"""
@@ -1909,7 +1928,7 @@ class ConcreteCtx(_Base):
         return self.fresh_int(name, 0, n - 1)
 
     def flag(self, name):
-        return self.fresh_bool(name)
+        return bool(self.fresh_int(name, 0, 1))
 
     def conc(self, v, lo, hi):
         return int(v)
